@@ -68,6 +68,7 @@ type flow struct {
 	normal    *State // nil: does not fall through
 	breaks    map[string][]*State
 	continues map[string][]*State
+	gotos     map[string][]*State // forward gotos waiting for their label
 }
 
 // Exec verifies one function (or closure) against its contract.
@@ -567,7 +568,9 @@ func (x *Exec) merge(states []*State) *State {
 
 // ---- statements ----
 
-func newFlow() *flow { return &flow{breaks: map[string][]*State{}, continues: map[string][]*State{}} }
+func newFlow() *flow {
+	return &flow{breaks: map[string][]*State{}, continues: map[string][]*State{}, gotos: map[string][]*State{}}
+}
 
 func (f *flow) absorb(g *flow) {
 	for k, v := range g.breaks {
@@ -576,14 +579,24 @@ func (f *flow) absorb(g *flow) {
 	for k, v := range g.continues {
 		f.continues[k] = append(f.continues[k], v...)
 	}
+	for k, v := range g.gotos {
+		f.gotos[k] = append(f.gotos[k], v...)
+	}
 }
 
 func (x *Exec) execBlock(st *State, stmts []ast.Stmt) *flow {
 	out := newFlow()
 	cur := st
 	for _, s := range stmts {
+		if ls, ok := s.(*ast.LabeledStmt); ok {
+			// forward gotos to this label join the normal flow here
+			if pend := out.gotos[ls.Label.Name]; len(pend) > 0 {
+				cur = x.merge(append([]*State{cur}, pend...))
+				delete(out.gotos, ls.Label.Name)
+			}
+		}
 		if cur == nil {
-			break
+			continue
 		}
 		f := x.execStmt(cur, s, "")
 		out.absorb(f)
@@ -704,6 +717,9 @@ func (x *Exec) execStmt(st *State, s ast.Stmt, label string) *flow {
 			out.breaks[l] = append(out.breaks[l], st)
 		case token.CONTINUE:
 			out.continues[l] = append(out.continues[l], st)
+		case token.GOTO:
+			// forward goto: the state waits for its label in an enclosing block
+			out.gotos[l] = append(out.gotos[l], st)
 		default:
 			panic(unsupported("branch statement " + s.Tok.String()))
 		}
